@@ -328,15 +328,19 @@ func (sr *StatusReport) UnmarshalCbor(r io.Reader) error {
 		return fmt.Errorf("Expected array of length 4 or 6, got %d", n)
 	}
 
-	if n, err := cboring.ReadArrayLength(r); err != nil {
+	// The slice grows with the items actually read; the announced length is attacker controlled and must not be
+	// allocated up front.
+	statusLen, err := cboring.ReadArrayLength(r)
+	if err != nil {
 		return err
-	} else {
-		sr.StatusInformation = make([]BundleStatusItem, int(n))
 	}
-	for i := 0; i < len(sr.StatusInformation); i++ {
-		if err := cboring.Unmarshal(&sr.StatusInformation[i], r); err != nil {
+	sr.StatusInformation = nil
+	for i := uint64(0); i < statusLen; i++ {
+		var bsi BundleStatusItem
+		if err := cboring.Unmarshal(&bsi, r); err != nil {
 			return fmt.Errorf("Unmarshalling BundleStatusItem failed: %v", err)
 		}
+		sr.StatusInformation = append(sr.StatusInformation, bsi)
 	}
 
 	if n, err := cboring.ReadUInt(r); err != nil {
